@@ -62,6 +62,16 @@ void harness(void) {
         CHECK(rc == 0 && t >= utc[w] && t <= utc[w + 1], "interpolated time stays inside its segment");
     }
 #endif
+#ifdef WITH_EXTRAP
+    if (n >= 2) {
+        SYM_U32(beyond);
+        ASSUME(beyond >= 1 && beyond < (1u << VBITS));
+        rc = jls_tmap_sample_id_to_timestamp(m, sid[n - 1] + beyond, &t);
+        CHECK(rc == 0, "conversion after the last pair succeeds (extrapolation from the last segment)");
+        rc = jls_tmap_sample_id_to_timestamp(m, sid[0] - (int64_t) beyond, &t);
+        CHECK(rc == 0, "conversion before the first pair succeeds (extrapolation from the first segment)");
+    }
+#endif
     (void) s;
     jls_tmap_free(m);
     WITNESS_END();
